@@ -3,7 +3,7 @@
 -/
 import Hv.Storage.Session
 
-namespace Hv.Storage
+namespace Hv.BlockStore
 
 /-! ### `durAt` is the file at the last completed fsync -/
 
@@ -118,9 +118,9 @@ theorem evBlocks_take_prefix (evs : List Ev) (t : Nat) : evBlocks (evs.take t) <
   conv => rhs; rw [this, evBlocks_append]
   exact List.prefix_append _ _
 
-end Hv.Storage
+end Hv.BlockStore
 
-namespace Hv.Storage
+namespace Hv.BlockStore
 
 /-! ### The whole session, file creation included -/
 
@@ -322,9 +322,9 @@ theorem session_lossy_eq (nl : Nat) (evs : List Ev) (i j k : Nat) (hji : j < i) 
   · simp [h] at hm
   · exact h
 
-end Hv.Storage
+end Hv.BlockStore
 
-namespace Hv.Storage
+namespace Hv.BlockStore
 
 theorem createOps_length (nl : Nat) : (createOps .main nl).length = if nl = 0 then 2 else 3 := by
   by_cases h : nl = 0 <;> simp [createOps, h]
@@ -440,9 +440,9 @@ theorem sessionDurable_is_synced_file (nl : Nat) (evs : List Ev) (i : Nat)
     have : ¬ ((createOps .main nl).length + n ≤ (createOps .main nl).length) := by omega
     simp [this, fileCells_nil]
 
-end Hv.Storage
+end Hv.BlockStore
 
-namespace Hv.Storage
+namespace Hv.BlockStore
 
 /-! ### Writing after a recovery (repaired open) -/
 
@@ -557,9 +557,9 @@ theorem open_repaired (c : Cfg) (hc : GoodR c.r) (ht : c.truncatesTornTail = tru
           cases loadFile c.r g <;> simp [Index.replay]
         rw [this, hload]; simp [entsOf]
 
-end Hv.Storage
+end Hv.BlockStore
 
-namespace Hv.Storage
+namespace Hv.BlockStore
 
 theorem applyAll_sessionOps (nl : Nat) (evs : List Ev) :
     ({} : Disk).applyAll (sessionOps nl evs) = { main := some (fileCells nl (evBlocks evs)), temp := none } := by
@@ -569,9 +569,9 @@ theorem applyAll_sessionOps (nl : Nat) (evs : List Ev) :
   simp only [List.length_append, fhCells_length, nmCells_length] at this
   rw [this]; simp [fileCells]
 
-end Hv.Storage
+end Hv.BlockStore
 
-namespace Hv.Storage
+namespace Hv.BlockStore
 
 /-! ### Appending behind a torn block strands everything that follows -/
 
@@ -649,4 +649,4 @@ theorem loadEntries_strands (c : RCfg) (nl : Nat) (bs : List Block) (hwf : ∀ b
   · right; rfl
   · left; rfl
 
-end Hv.Storage
+end Hv.BlockStore
